@@ -311,10 +311,41 @@ def gen_random(ctx, rnd, out):
                 out.append({"op": op, "s": codes(s), "sub": codes(sub), "src": call_src(q(s), op, [q(sub)])})
 
 
+def gen_alias(ctx, rnd, out):
+    """multi-step expressions over ONE value: slices, concatenations and repetitions must not disturb the value
+    they were derived from (tuples, strings and bytes are immutable; list results are fresh)"""
+    def lit(ty, elems):
+        if ty in ("str", "bytes"):
+            return recv_src(ty, "".join(chr(c) for c in elems))
+        body = ", ".join(map(str, elems))
+        return "[%s]" % body if ty == "list" else "(%s%s)" % (body, "," if len(elems) == 1 else "")
+    bases = {
+        "literal": lambda ty, e: lit(ty, e),
+        "sliced": lambda ty, e: "%s[0:%d]" % (lit(ty, e + [103, 104]), len(e)),        # shares storage with a longer value
+        "strided": lambda ty, e: "%s[::2]" % lit(ty, [v for x in e for v in (x, 120)]),
+        "concat": lambda ty, e: "(%s + %s)" % (lit(ty, e[:1]), lit(ty, e[1:])),
+        "converted": lambda ty, e: {"tuple": "tuple([%s])", "list": "list((%s,))", "str": '"".join([%s])', "bytes": 'bytes([%s])'}[ty] % (
+            ", ".join(('"%s"' % chr(v)) if ty == "str" else str(v) for v in e)),
+    }
+    for ty in ("tuple", "list", "str"):      # bytes + bytes is not defined by doc/spec.md nor implemented: not judged
+        for n in range(1, 6):
+            e = [97 + i for i in range(n)]
+            for bname, bf in bases.items():
+                if bname == "converted" and n == 0:
+                    continue
+                for k in range(0, n + 1):
+                    for xs in ([], [120], [120, 121, 122]):
+                        out.append({"op": "slice_concat", "ty": ty, "s": e, "k": k, "x": xs,
+                                    "src": "(lambda t: [t[:%d] + %s, t, t[%d:]])(%s)" % (k, lit(ty, xs), k, bf(ty, e))})
+                for xs, ys, zs in (([100], [101], [102, 103]), ([100, 100, 100], [101], []), ([], [101, 101], [102])):
+                    out.append({"op": "extend_twice", "ty": ty, "s": e, "x": xs, "y": ys, "z": zs,
+                                "src": "(lambda t: (lambda u: [u + %s, u + %s, u, t])(t + %s))(%s)" % (lit(ty, ys), lit(ty, zs), lit(ty, xs), bf(ty, e))})
+
+
 def generate(ctx):
     rnd = random.Random(ctx.seed)
     out = []
-    for g in (gen_slices, gen_search, gen_split, gen_case, gen_lists, gen_random):
+    for g in (gen_slices, gen_search, gen_split, gen_case, gen_lists, gen_random, gen_alias):
         g(ctx, rnd, out)
     for i, c in enumerate(out):
         c["id"] = i + 1
